@@ -302,6 +302,10 @@ class Interp:
     def store_subscript(self, obj, target, v, env, stmt):
         idx = target.slice
         if isinstance(obj, ArrV):
+            try:
+                obj.touched = True
+            except Exception:
+                pass
             if isinstance(idx, ast.Tuple) and len(idx.elts) == 2:
                 r = self.ev(idx.elts[0], env)
                 c = self.ev(idx.elts[1], env)
@@ -804,6 +808,8 @@ class Interp:
                 return ScalV(s=sa - sb)
             if isinstance(op, ast.Mult):
                 return ScalV(s=sa * sb)
+            if isinstance(op, ast.Div) and sb.recip() is not None:
+                return ScalV(s=sa * sb.recip())
         if isinstance(a, ArrV) and isinstance(b, Const) and isinstance(b.value, (int, float)) and not isinstance(b.value, bool) and b.value != 0 \
                 and isinstance(op, (ast.Mult, ast.Div)) and a.form is not None:
             from fractions import Fraction as _Fr
@@ -1312,6 +1318,13 @@ class Interp:
         return Unknown(f"method {attr}")
 
     def check_from_data(self, cls: NCls, a, env, n):
+        if isinstance(a, ArrV) and a.origin in ("zeros", "ones", "empty") and not a.touched and isinstance(a.rows, Dim):
+            # allocated by size and handed on without a single element store: the named value is all zeros whatever was computed
+            self.oblige("LAY-SLOT", env, n, f"{cls.name}.from_data(<freshly allocated array>)", False,
+                        f"{cls.name}.from_data is given an array that was allocated (np.{a.origin}) and never filled: the computed values are dropped")
+        if isinstance(a, ArrV) and cls.kind == "vec" and is_layout(a.cols) and a.cols != ONE and not is_layout(a.rows):
+            self.oblige("LAY-SLOT", env, n, f"{cls.name}.from_data({a})", False,
+                        f"{cls.name}.from_data is given an array whose *column* axis was filled by the enumeration of {a.cols}: a named vector is a column")
         if isinstance(a, ArrV) and is_layout(a.rows):
             rows = a.rows.unprime() if isinstance(a.rows, Layout) else a.rows
             ok = rows == cls.layout
